@@ -359,3 +359,18 @@ func ReplaySub() string {
 	_ = json.Unmarshal(b, &rf)
 	return rf.Sub
 }
+
+// FuzzCase evaluates one case inside a native fuzz target. The violation
+// line is put into the failure message because the coordinator only relays
+// the test log of a failing worker.
+func FuzzCase[C any](t *testing.T, sub string, c C, run func(C) Result) {
+	t.Helper()
+	res := run(c)
+	if tolerate(sub, res) {
+		return
+	}
+	if res.Violation != "" {
+		path := writeReplay(sub, c, res)
+		t.Fatalf("VERIF-VIOLATION property=%s sub=%s sig=%s replay=%s\nVERIF-DETAIL %s", S.ID, sub, res.Sig, path, res.Violation)
+	}
+}
